@@ -42,6 +42,8 @@ type c03Op struct {
 	FaultSt  int    `json:"fault_status,omitempty"` // that status: 503 (default), 500, 502, 504 or 429
 	Elicit   bool   `json:"elicit,omitempty"`       // s2c call: elicitation/create instead of roots/list
 	CancelMs int    `json:"cancel_ms,omitempty"`    // call: > 0: the caller's context ends this long after the call was issued (possibly while it is still queued at the peer)
+	Ping     bool   `json:"ping,omitempty"`         // call: a ping (legacy sessions), which no feature handler serves but which is a call like any other
+	FullMeta bool   `json:"full_meta,omitempty"`    // notify on a 2026-07-28 session: its _meta also carries the per-request protocol metadata (version, capabilities, client info)
 }
 
 type c03Spec struct {
@@ -58,6 +60,11 @@ type c03Spec struct {
 	// CancelInit (raw-init): the peer withdraws its initialize request (notifications/cancelled) while the slow
 	// initialize is still being handled; what it sent after it must still wait for initialize to finish
 	CancelInit bool `json:"cancel_init,omitempty"`
+	// EarlyClose (mem | pipe): as soon as the last operation has been issued - handlers still running, messages still
+	// queued behind them - the receiving side closes its session ("receiver") or the sending side closes its own
+	// ("sender", the receiver sees the end of its input). Whether what is queued then still runs is not fixed; the order
+	// among the handlers that do run is.
+	EarlyClose string `json:"early_close,omitempty"`
 }
 
 func genC03(r *vh.Rand) c03Spec {
@@ -95,11 +102,18 @@ func genC03(r *vh.Rand) c03Spec {
 			op.Elicit = true
 		case op.Kind == "call" && persistent && s.Mode != "raw-init" && r.Chance(1, 5):
 			op.CancelMs = r.Range(1, 4)
+		case op.Kind == "call" && s.Mode != "raw-init" && s.Version != "" && r.Chance(1, 4):
+			op.Ping = true
+		case op.Kind == "notify" && s.Mode == "c2s" && s.Version == "" && r.Chance(1, 3):
+			op.FullMeta = true
 		}
 		s.Ops = append(s.Ops, op)
 	}
 	if s.Mode == "raw-init" && !s.Batch && r.Bool() {
 		s.CancelInit = true
+	}
+	if s.Mode != "raw-init" && (s.Transport == "mem" || s.Transport == "pipe") && r.Chance(1, 6) {
+		s.EarlyClose = r.Choose("receiver", "sender")
 	}
 	for _, op := range s.Ops {
 		if op.Kind == "roots" && s.Bystanders == 0 && r.Bool() {
@@ -356,6 +370,12 @@ func runC03(c *vh.Case, spec c03Spec) {
 		}
 		if op.Kind == "notify" {
 			p := &mcp.ProgressNotificationParams{Meta: mcp.Meta{"nonce": op.N}, ProgressToken: "t", Progress: float64(op.N)}
+			if op.FullMeta {
+				p.Meta[mcp.MetaKeyProtocolVersion] = cs.InitializeResult().ProtocolVersion
+				p.Meta[mcp.MetaKeyClientCapabilities] = map[string]any{}
+				p.Meta[mcp.MetaKeyClientInfo] = map[string]any{"name": "c", "version": "1"}
+				c.Count("notifications_with_per_request_metadata", 1)
+			}
 			var err error
 			if spec.Mode == "c2s" {
 				err = cs.NotifyProgress(ctx, p)
@@ -386,6 +406,10 @@ func runC03(c *vh.Case, spec c03Spec) {
 				defer cancel()
 			}
 			switch {
+			case op.Ping && spec.Mode == "c2s":
+				err = cs.Ping(cctx, &mcp.PingParams{Meta: mcp.Meta{"nonce": op.N}})
+			case op.Ping:
+				err = ss.Ping(cctx, &mcp.PingParams{Meta: mcp.Meta{"nonce": op.N}})
 			case spec.Mode == "c2s":
 				_, err = cs.CallTool(cctx, &mcp.CallToolParams{Name: "work", Arguments: map[string]any{"nonce": op.N}})
 			case op.Elicit:
@@ -403,6 +427,21 @@ func runC03(c *vh.Case, spec c03Spec) {
 		// the call has been written (and is in flight or finished) once everything else is blocked
 		synctestWait()
 		log.Add("api-return", "n", op.N)
+	}
+	if spec.EarlyClose != "" {
+		closer := func() {
+			log.Add("early-close", "by", spec.EarlyClose)
+			if (spec.EarlyClose == "receiver") == (spec.Mode == "c2s") {
+				ss.Close()
+			} else {
+				cs.Close()
+			}
+		}
+		closed := make(chan struct{})
+		go func() { defer close(closed); defer c.Guard(""); closer() }()
+		calls.Wait()
+		<-closed
+		c.Count("early_close_cases", 1)
 	}
 	calls.Wait()
 	total := 20
@@ -556,9 +595,41 @@ func decideC03(c *vh.Case, spec c03Spec) {
 			c.Violate("pipelined-message-rejected", "pipelined message id=%s was answered with error %d %q (later messages overtook initialize?)", fstr(e, "id"), fint(e, "code"), fstr(e, "msg"))
 			return
 		case "call-failed":
+			if spec.EarlyClose != "" {
+				break // the session was closed under the call
+			}
 			c.Violate("call-failed", "call %d failed: %s", n, fstr(e, "err"))
 			return
 		}
+	}
+	if spec.EarlyClose != "" {
+		// the session was closed with handlers running and messages queued: which of the queued ones still run is not
+		// fixed, but no message may start while an earlier notification of the same sender is still being handled
+		var prevNotes []int
+		ran := 0
+		for _, op := range spec.Ops {
+			st, started := start[op.N]
+			if started {
+				ran++
+				for _, pn := range prevNotes {
+					pf, fin := finish[pn]
+					if _, pst := start[pn]; !pst {
+						continue
+					}
+					if !fin || pf.Seq > st.Seq {
+						c.Violate("overtook-notification", "session closed early (%s): message %d started (seq %d, %dus) before the handler of earlier notification %d had finished (finished: %v, seq %d, %dus)", spec.EarlyClose, op.N, st.Seq, st.T, pn, fin, pf.Seq, pf.T)
+						return
+					}
+				}
+			}
+			if op.Kind != "call" {
+				prevNotes = append(prevNotes, op.N)
+			}
+		}
+		if ran >= 2 {
+			c.Nontrivial(fmt.Sprintf("early-close:%s:%s:%s:%d/%d", spec.EarlyClose, spec.Mode, spec.Transport, ran, len(spec.Ops)))
+		}
+		return
 	}
 	if spec.Mode == "raw-init" && len(early) > 0 {
 		c.Violate("overtook-initialize", "requests %v, sent after initialize, were answered before initialize was (answered at %dus): they were handled while it was still in progress", early, initAnswered)
